@@ -168,8 +168,9 @@ def Route.guardedOk (r : Route) : Bool :=
 event: the engine sends its UodInfo right after registering), a later `UodInfoMsg`, `RunStartedMsg`,
 `RunStoppedMsg` (`run_started`, `run_stopped`, `EngineData.reset_run`, `store_recent_run`) and
 `handle_EngineDisconnected` (`store_recent_engine`, removal from the engine map). Required roles are a
-property of the unit that only a UodInfo sets; run events copy them into the stored recent run, a
-disconnect copies them into the recent-engine row. -/
+property of the unit that only a UodInfo sets; run events copy them into the stored recent run and (since the
+"active run survives an aggregator restart" repair) into the recent-engine row, which `run_started` /
+`run_stopped` now write right away (`store_recent_engine`: roles, active run id); a disconnect writes that row too. -/
 
 structure UnitSt where
   id : String
@@ -226,18 +227,21 @@ def step (s : AState) : Event → AState
     match findU s.online u with
     | none => s
     | some x =>
+      -- the row of the unit is (re)written right away with the unit's current roles and the run now active
+      let recent' := upsertRecent ⟨u, x.roles, some r⟩ s.recent
       match x.run with
-      | none => { s with online := setRun u (some r) s.online }
+      | none => { s with online := setRun u (some r) s.online, recent := recent' }
       | some cur =>
-        if cur = r then s
-        else { s with runs := s.runs ++ [⟨cur, x.roles⟩], online := setRun u (some r) s.online }
+        if cur = r then { s with recent := recent' }
+        else { s with runs := s.runs ++ [⟨cur, x.roles⟩], online := setRun u (some r) s.online, recent := recent' }
   | .runStopped u _ =>
     match findU s.online u with
     | none => s
     | some x =>
       match x.run with
       | none => s
-      | some cur => { s with runs := s.runs ++ [⟨cur, x.roles⟩], online := setRun u none s.online }
+      | some cur => { s with runs := s.runs ++ [⟨cur, x.roles⟩], online := setRun u none s.online,
+                             recent := upsertRecent ⟨u, x.roles, none⟩ s.recent }
   | .disconnect u =>
     match findU s.online u with
     | none => s
